@@ -160,6 +160,7 @@ func c09Verdict(sites []c09Site) (guarded bool, common []int, majority int, offe
 var c09KnownOpenSites = map[string]struct{ fn, class string }{
 	"Transport.pendingAltSvcs": {"Transport.checkAltSvc", "lockset-pendingAltSvcs-checkAltSvc"},
 	"AltSvcJar.entries":        {"AltSvcJar.GetAltSvc", "lockset-AltSvcJar-GetAltSvc"},
+	"RoundTripper.transport":   {"RoundTripper.dial", "lockset-http3-transport-dial"},
 }
 
 // c09FieldGuarded reports whether the regenerated facts show every access site of the field
@@ -198,7 +199,7 @@ func c09AltSvcGuarded(t testing.TB) bool {
 // The property oracle is "guarded"; the two confirmed unguarded sites are classed.
 func TestVerif_C09_locksetfacts(t *testing.T) {
 	s := verifh.New(t, "C09", "locksetfacts",
-		"one case per anchored shared field (13 fields in 4 packages + one pseudo-field per …Locked calling convention): all syntactic access sites with the mutexes held there, regenerated from the source by tools/gofacts; oracle = some lock common to all non-setup sites; non-trivial = field with >= 2 sites")
+		"one case per anchored shared field (14 fields in 4 packages + one pseudo-field per …Locked calling convention): all syntactic access sites with the mutexes held there, regenerated from the source by tools/gofacts; oracle = some lock common to all non-setup sites; non-trivial = field with >= 2 sites")
 	fields, lockNames, refused, err := c09LockFacts(t)
 	if err != nil {
 		t.Fatalf("cannot regenerate the lock-set facts: %v", err)
